@@ -224,7 +224,97 @@ def r_version():
     lib.write_gen("VersionTables", "\n".join(out))
 
 
+WRITE_ATTRS = {"mkdir", "write_text", "write_bytes", "write", "unlink", "rename", "touch", "rmdir", "makedirs", "remove", "rmtree"}
+LOOP_SAFE_CALLS = {"print", "open", "mkdir", "exists", "close", "format", "rstrip", "items", "joinpath"}
+
+
+def atomic_tables():
+    """Statement list of generate() (T3): which top-level statements write, which statements of the write loop call
+    anything other than the write primitives, and the shape of the chdir context manager."""
+    import ast
+    import inspect
+    lib.ensure_repo_on_path()
+    import datamodel_code_generator as d
+
+    def is_write_call(c):
+        if not isinstance(c, ast.Call):
+            return False
+        f = c.func
+        if isinstance(f, ast.Attribute):
+            if f.attr in WRITE_ATTRS:
+                return True
+            if f.attr == "open":
+                mode = None
+                if len(c.args) >= 1 and isinstance(c.args[0], ast.Constant):
+                    mode = c.args[0].value
+                for kw in c.keywords:
+                    if kw.arg == "mode" and isinstance(kw.value, ast.Constant):
+                        mode = kw.value.value
+                return isinstance(mode, str) and any(ch in mode for ch in "wax+")
+        if isinstance(f, ast.Name):
+            if f.id == "print":
+                return any(kw.arg == "file" and ast.unparse(kw.value) not in ("sys.stderr", "sys.stdout") for kw in c.keywords)
+            if f.id == "open":
+                return True
+        return False
+
+    def writes(node):
+        return any(is_write_call(x) for x in ast.walk(node))
+
+    def foreign(node):
+        for x in ast.walk(node):
+            if isinstance(x, ast.Raise):
+                return True
+            if isinstance(x, ast.Call):
+                f = x.func
+                name = f.attr if isinstance(f, ast.Attribute) else getattr(f, "id", "?")
+                if name not in LOOP_SAFE_CALLS:
+                    return True
+        return False
+
+    fn = ast.parse(inspect.getsource(d.generate)).body[0]
+    rows = []
+    seen_loop = False
+    for st in fn.body:
+        if isinstance(st, ast.For) and writes(st) and not seen_loop:
+            seen_loop = True
+            for inner in st.body:
+                rows.append((f"loop:{type(inner).__name__}:{inner.lineno}", writes(inner), foreign(inner), True))
+            if st.orelse:
+                rows.append((f"loop-else:{st.lineno}", writes(ast.Module(body=st.orelse, type_ignores=[])), True, True))
+        else:
+            label = f"{type(st).__name__}:{st.lineno}"
+            rows.append((label, writes(st), foreign(st), False))
+    # chdir: prev = Path.cwd() / os.getcwd() before try, os.chdir(prev) in finally
+    cfn = ast.parse(inspect.getsource(d.chdir.__wrapped__ if hasattr(d.chdir, "__wrapped__") else d.chdir)).body[0]
+    saves_real, restores = False, False
+    for x in ast.walk(cfn):
+        if isinstance(x, ast.Assign) and isinstance(x.value, ast.Call):
+            src = ast.unparse(x.value)
+            if src in ("Path.cwd()", "os.getcwd()", "Path(os.getcwd())"):
+                saved = x.targets[0].id if isinstance(x.targets[0], ast.Name) else None
+                saves_real = saved is not None
+                for t in ast.walk(cfn):
+                    if isinstance(t, ast.Try):
+                        for f in t.finalbody:
+                            if ast.unparse(f).strip() == f"os.chdir({saved})":
+                                restores = True
+    return {"rows": rows, "chdir_saves_real_cwd": saves_real, "chdir_restores_in_finally": restores}
+
+
+def r_atomic():
+    t = atomic_tables()
+    S = coq_string
+    out = ["(* GENERATED on every run by /verif/harness/reflect.py from the AST of generate() and chdir(). *)\nFrom DMCG Require Import Atomic.\nOpen Scope string_scope.\n"]
+    out.append("Definition generate_stmts : list stmt := [" + "; ".join(
+        f"{{| s_label := {S(l)}; s_writes := {lib.coq_bool(w)}; s_foreign := {lib.coq_bool(f)}; s_in_loop := {lib.coq_bool(i)} |}}" for l, w, f, i in t["rows"]) + "].\n")
+    out.append(f"Definition chdir_saves_real_cwd : bool := {lib.coq_bool(t['chdir_saves_real_cwd'])}.\n")
+    out.append(f"Definition chdir_restores_in_finally : bool := {lib.coq_bool(t['chdir_restores_in_finally'])}.\n")
+    lib.write_gen("AtomicTables", "\n".join(out))
+
+
 REFLECTORS = {
+    "AtomicTables": r_atomic,
     "VersionTables": r_version,
     "PlumbingTables": r_plumbing,
     "EscapeTables": r_escape,
